@@ -264,3 +264,21 @@ Theorem C19_evm_concrete_selection_refuted :
   (evm_ask auth (EvQStorage 7 0) <$> evm_init toy_hash v nm auth (evm_export auth s)) = Some (EvAO (Some 42%N)).
 Proof. exact evm_concrete_selection_refuted_lemma. Qed.
 Print Assumptions C19_evm_concrete_selection_refuted.
+
+(** Outside the invariant (a candidate finding, reproduced on the real code with a genesis file that
+    holds an SDK BaseAccount at the CREATE address of a deployer): an account kind without a code hash
+    at a contract creation address.  The deployment succeeds, no code hash can be recorded (the contract
+    never answers), the constructor's storage lands under the address -- the run is not [run_ok], the
+    state is not [evm_wf], the account is not exported and its storage is gone after the re-import. *)
+Theorem C19_evm_base_account_storage_refuted :
+  let v := fun _ : N => true in let nm := fun p : N => p in
+  let auth := base_run.1 in let s := base_run.2 in
+  run_ok toy_hash v nm (∅, mk_evm 0 ∅ ∅) base_ops = false /\
+  ~ evm_wf toy_hash v nm auth s /\
+  auth !! 5%N = Some (KBase, 1000%N) /\
+  evm_export auth s = mk_evmg 0 [mk_ea 1 0 []]%N /\
+  evm_ask auth (EvQCode 5) s = EvAN 0 /\
+  evm_ask auth (EvQStorage 5 0) s = EvAO (Some 42%N) /\
+  (evm_ask auth (EvQStorage 5 0) <$> evm_init toy_hash v nm auth (evm_export auth s)) = Some (EvAO None).
+Proof. exact evm_base_account_storage_refuted_lemma. Qed.
+Print Assumptions C19_evm_base_account_storage_refuted.
